@@ -26,6 +26,7 @@ Parts
              oracle 1 - a 'successful' run that stores a state at or beyond the singularity is a violation.
 """
 import math
+import warnings
 
 import numpy as np
 from hypothesis import strategies as st
@@ -144,7 +145,18 @@ def parts(tier):
     return [Part("sharp", strategy=_sharp(), examples=96 if q else 3000, timeout=300),
             Part("scaling", strategy=_scaling(), examples=300 if q else 6000, timeout=300),
             Part("accuracy", strategy=_accuracy(), examples=500 if q else 10000, timeout=600),
-            Part("blowup", strategy=_blowup(), examples=60 if q else 1500, timeout=300)]
+            Part("blowup", strategy=_blowup(), examples=60 if q else 1500, timeout=300),
+            Part("half", strategy=_half(), examples=200 if q else 4000, timeout=300)]
+
+
+@st.composite
+def _half(draw):
+    """half precision (float16): the norm of the scaled error estimate overflows already at a ratio of 256 - a first attempt far
+    too long for the tolerance must still be rejected, not waved through"""
+    return dict(part="half", method=draw(st.sampled_from(["HeunEulerSolver", "RK45CKSolver", "DOPRI45", "RK8713MSolver"])), dtype="float16",
+                lam=draw(st.sampled_from([-3.0, -1.0, -0.5, 2.0, 1.0])), y0=[draw(st.sampled_from([1.0, -0.5, 2.0, 0.25])) for _ in range(draw(st.integers(1, 3)))],
+                t0=draw(st.sampled_from([0.0, 1.0, -2.0])), L=draw(st.sampled_from([2.0, -2.0, 1.0, -1.0])),
+                dtf=draw(st.sampled_from([4.0, 2.0, 1.0, 0.5, 0.1])), tol=draw(st.sampled_from([2e-3, 5e-3, 1e-2])))
 
 
 class Recorder(object):
@@ -352,7 +364,9 @@ def _check_blowup(case):
     if err is not None:
         cause = err.__cause__
         labels.append("raised:" + type(cause).__name__)
-        if not isinstance(cause, (de.exception_types.FailedToMeetTolerances, OverflowError, FloatingPointError, ValueError)):
+        # (RecursionError is the failure the docstring of integrate() names for an adaptive integrator - the Richardson wrappers
+        #  retry by recursion - that cannot converge)
+        if not isinstance(cause, (de.exception_types.FailedToMeetTolerances, OverflowError, FloatingPointError, ValueError, RecursionError)):
             viols.append(V("blowup_wrong_error", "{}: failure reported through {!r} instead of FailedToMeetTolerances".format(method, cause), fam + exc_sig(err), **attrs))
     if case["which"] == "pole":
         if np.any(t >= 1.0):
@@ -461,7 +475,44 @@ def _check_sharp(case):
     return viols, dict(nontrivial=retries >= 2, labels=labels, counts=dict(rejected_attempts=retries))
 
 
+def _check_half(case):
+    import desolver as de
+    method = case["method"]
+    lam, t0, L, tol = case["lam"], case["t0"], case["L"], case["tol"]
+    y0 = np.asarray(case["y0"], dtype=np.float16)
+    attrs = dict(method=method, dtype="float16")
+    labels = ["method:" + method, "first_step/span:{}".format(case["dtf"]), "backward" if L < 0 else "forward", "growing" if lam * L > 0 else "decaying"]
+    a = de.OdeSystem(lambda t, y, **kw: lam * y, y0=y0.copy(), t=(t0, t0 + L), dt=abs(L) * case["dtf"], rtol=tol, atol=tol)
+    a.method = M.get(method)
+    with warnings.catch_warnings():
+        warnings.simplefilter("ignore")
+        with np.errstate(all="ignore"):
+            err = traj.run_integrate(a, step_limit=2000)
+    if isinstance(err, traj.StepCap):
+        return [], dict(nontrivial=False, labels=labels + ["capped"])
+    if err is not None:
+        if exc_origin(err)[0] == "harness":
+            raise err
+        return [], dict(nontrivial=False, labels=labels + ["reported_failure:" + type(err.__cause__).__name__])
+    t = np.asarray(a.t, dtype=np.float64)
+    y = np.asarray(a.y, dtype=np.float64)
+    ex = np.asarray(case["y0"], dtype=np.float64)[None, :] * np.exp(lam * (t - t0))[:, None]
+    amp = max(1.0, math.exp(lam * L))
+    eps16 = float(np.finfo(np.float16).eps)
+    # 60 x the tolerance-level error times the problem's amplification, plus the rounding of the recorded steps themselves
+    allowed = 60.0 * (tol + tol * np.abs(ex)) * amp + len(t) * eps16 * np.max(np.abs(ex))
+    ratio = np.abs(y - ex) / allowed
+    viols = []
+    if not np.all(ratio <= 1.0):
+        k = int(np.argmax(np.nan_to_num(ratio, nan=np.inf).max(axis=1)))
+        viols.append(V("inaccurate_state_recorded", "{} (float16): y' = {} y over ({}, {}) with first step {} x span, rtol = atol = {}: returned normally with state {} at t = {!r} for an exact {} ({:.3g} x the allowed error; {} samples)".format(
+            method, lam, t0, t0 + L, case["dtf"], tol, y[k].tolist(), float(t[k]), ex[k].tolist(), float(np.nanmax(ratio[k])), len(t)), "embedded_half", **attrs))
+    return viols, dict(nontrivial=case["dtf"] >= 1.0, labels=labels)
+
+
 def check(case):
+    if case["part"] == "half":
+        return _check_half(case)
     if case["part"] == "sharp":
         return _check_sharp(case)
     if case["part"] == "scaling":
